@@ -259,7 +259,7 @@ def gitEngine : List String → String
         -- filters are applied to every entry (errors ignored by the code: git has no devices / setid bits)
         -- and the final re-paving sets every directory's mtime to the default time, whatever the mtime filter says
         let ms' := ms.map (fun m => match applyUnpackFilter mu mg ff m with
-          | .ok m' => if m'.kind = .dir then { m' with mtime := defaultTime } else m'
+          | .ok m' => if m'.kind = Kind.dir then { m' with mtime := defaultTime } else m'
           | _ => m)
         let lines := ms'.map (fun m => s!"{toHex m.name.path}|{kindTok m.kind}|{m.perms}|{m.uid}|{m.gid}|{m.mtime.sec}|{toHex m.linkname}")
         ",".intercalate (sortBy (fun (x : String) => x.toUTF8.toList) lines)
